@@ -35,8 +35,12 @@ Fold(stack, e) == IF stack = <<>> THEN e ELSE Fold(Tail(stack), ApplyMw(Head(sta
 \* value type-state: "RE" needs string values; after "MI" the month is an int (such a stack may raise: C07)
 Applicable(stack) == \A i, j \in DOMAIN stack : i < j => ~(stack[i] = "MI" /\ stack[j] = "RE")
 Split0 == [layers |-> 1, log |-> <<>>, mint |-> FALSE]        \* what the scanner yields for  title = {x}, month = 3
+\* parse_string(text, library=L): the scanner ADDS the new blocks to L and the stack then runs over the whole library,
+\* L's earlier blocks included; Pre0 is such an earlier entry (title = {{x}}, month = 3, never transformed).
+Pre0 == [layers |-> 2, log |-> <<>>, mint |-> FALSE]
 ParseString(ps, app) == LET b == BuildParseStack(ps, app) IN
-                        IF b.err THEN [err |-> TRUE] ELSE [err |-> FALSE, e |-> Fold(b.stack, Split0)]
+                        IF b.err THEN [err |-> TRUE]
+                        ELSE [err |-> FALSE, e |-> Fold(b.stack, Split0), pre |-> Fold(b.stack, Pre0)]
 RECURSIVE Braces(_, _)
 Braces(n, s) == IF n = 0 THEN s ELSE "{" \o Braces(n - 1, s) \o "}"
 \* month value as written: an int month cannot be written without enclosing ... the default stack encloses it
